@@ -172,6 +172,9 @@ pub(crate) fn read_tags_array(
 
     let mut tag_num = 0;
     let mut outpos: usize = 4 + num_tags * 2;
+    if outpos > u16::MAX as usize {
+        return Err(InnerError::OutOfRange(outpos).into());
+    }
     if output.len() < outpos {
         return Err(InnerError::BufferTooSmall(outpos).into());
     }
@@ -210,6 +213,12 @@ pub(crate) fn read_tags_array(
             }
             _ => return Err(InnerError::JsonBad("Tag array bad character", *inposp).into()),
         }
+    }
+
+    // The section length (and with it every offset, count and string length
+    // written above) must fit the 16-bit fields of the binary format
+    if outpos > u16::MAX as usize {
+        return Err(InnerError::OutOfRange(outpos).into());
     }
 
     // Write length of tags section
